@@ -31,6 +31,16 @@ CLAIMED = {
    text="Exhaustive identity check of the memoised evaluation/derivative matrices for degrees 1..6 (p+1 rational parameters per basis function, exact), then generated segments of every numeric kind: evaluation, derivatives, split re-parameterisation, box, point-on-curve for regular segments, off-curve points at >= 2e-6, winding contribution vs subtended angle.",
    note="Trusted: de Casteljau evaluation and subdivision angle of vlib/refgeom.py. One open known finding (projection misses points on zig-zag control polygons of degree >= 3) excluded by an input predicate; rational point-on-curve queries on curved rational segments are not issued (5-20 s each in the library).",
    ref="4/C18"),
+ "C14": dict(
+   technique="property-based testing (Hypothesis): generated curve pairs in crossing/nested/apart/identical/shared-edge configurations vs an independent crossing finder (exact line-line, subdivision + Newton polish)",
+   text="Generated pairs of closed curves (degrees 1..3, every numeric kind) and all flag combinations; reported tuples are checked for range and soundness, completeness and uniqueness against the reference crossings, swap symmetry, (None,None) encoding, flag filtering, parity. Exact for rational polygons; curved pairs judged only when the reference says every crossing is well conditioned.",
+   note="Trusted: refgeom.seg_seg_crossings (self-tested). Float contacts exactly at a segment end and curved crossings with sin(theta) < 0.2 (open finding D17) are not judged for completeness.",
+   ref="4/C14"),
+ "C15": dict(
+   technique="property-based testing (Hypothesis): generated curves x split-parameter multisets x clean/second round vs a model of the curve as generated (de Casteljau re-parameterisation)",
+   text="Generated closed curves with rational/float split parameters including near-0/1, repeated and several per segment, then clean() and a second split/clean round; pieces must retrace the original, junctions lie on it at the split parameter, area/orientation unchanged, no zero-length piece, clean idempotent and restoring the original segmentation when no piece is in the degree-reduction regime.",
+   note="Trusted: de Casteljau sub-curves of the reference; the degree-reduction regime is decided from the piece's highest difference with a band of undecided cases. Three open known findings (absolute parallel test on tiny segments, pynurbs overflow when re-uniting rational cubics, close parameters now fixed) are excluded by input predicates.",
+   ref="4/C15"),
 }
 NOT_YET = "check not built yet in this round (planned, see DESIGN.md section 4); nothing is claimed for it"
 
